@@ -449,6 +449,8 @@ class DataSet(list):
         # [First] parsing the formatted ASCII file
         desc = {}   # description preamble (reference, kinematics, ...)
         data = []   # actual data grid  x1 x2  ... y1 dy1_stat dy1_syst ...
+        # a number: optional sign, decimal digits with optional point, optional exponent
+        number = r'[-+]?(?:\d+\.?\d*|\.\d+)(?:[eE][-+]?\d+)?'
         for dataFileLine in dataFile.splitlines():
             # remove comments
             dataFileLine = dataFileLine.split('#')[0]
@@ -457,9 +459,8 @@ class DataSet(list):
                 # converting preamble line into dictionary item
                 desctpl = tuple([s.strip() for s in dataFileLine.split("=")])
                 desc[desctpl[0]] = desctpl[1]
-            if re.match(r'([ \t]*[-\.\d]+[ \t\r]+)+', dataFileLine):
-                # FIXME: TAB-delimited columns are not handled! Only spaces are OK.
-                snumbers = re.findall(r'[-\.\d]+', dataFileLine)
+            if re.match(r'([ \t]*' + number + r'[ \t\r]+)+', dataFileLine):
+                snumbers = re.findall(number, dataFileLine)
                 numbers = []
                 for s in snumbers:
                     f = float(s)
